@@ -298,6 +298,64 @@ def case_cdf_fn(**p):
   return case
 
 
+def case_cdf_fn_float32(**p):
+  """cdf_fn on a one-keypoint, one-unit, one-input configuration (every tensor holds a single float32): the real graph is
+  interpreted over IEEE float32 terms (round to nearest even) instead of exact rationals, so that rounding at large magnitudes
+  is part of the semantics.  Range and monotonicity are asked for every finite float32 input, location and (non-negative)
+  scaling up to 2^100."""
+  import tensorflow as tf
+  from tensorflow_lattice.python import conditional_cdf as cc
+  case = Case(PROP, p['name'], {k: v for k, v in p.items() if k != 'name'})
+  case.encoded(cc.cdf_fn)
+  scaled = p.get('scaled', False)
+  red = p.get('reduction', 'mean')
+  if scaled:
+    fn = lambda x, l, s_: cc.cdf_fn(x, l, s_, units=1, activation='relu6', reduction=red)
+    specs_ = [tf.TensorSpec([1, 1], tf.float32), tf.TensorSpec([1, 1, 1, 1], tf.float32), tf.TensorSpec([1, 1, 1, 1], tf.float32)]
+  else:
+    fn = lambda x, l: cc.cdf_fn(x, l, None, units=1, activation='relu6', reduction=red)
+    specs_ = [tf.TensorSpec([1, 1], tf.float32), tf.TensorSpec([1, 1, 1, 1], tf.float32)]
+  tr = Traced(fn, specs_, name='cdf_fn[float32]')
+  sym.new_ctx()
+  F = z3.Float32()
+  xs = [z3.FP('x%d' % i, F) for i in range(2)]
+  loc, sc = z3.FP('loc', F), z3.FP('scale', F)
+  big = z3.FPVal(2.0 ** 100, F)
+  fin = []
+  for t in xs + [loc] + ([sc] if scaled else []):
+    fin += [z3.Not(z3.fpIsNaN(t)), z3.fpLEQ(z3.fpAbs(t), big)]
+  if scaled:
+    fin.append(z3.fpGEQ(sc, z3.FPVal(0.0, F)))   # documented precondition: non-negative scaling
+  outs = []
+  for xv in xs:
+    args = [np.array([[xv]], dtype=object), np.array([[[[loc]]]], dtype=object)] + ([np.array([[[[sc]]]], dtype=object)] if scaled else [])
+    (o,) = tr.sym_run(*args)
+    outs.append(np.asarray(o, dtype=object).reshape(-1)[0])
+  case.meta.update(ops=tr.ops_seen, float_regime='IEEE float32, RNE; tensors of one element only')
+  wit = dict(x=np.array([[xs[0]], [xs[1]]], dtype=object), loc=np.array([loc], dtype=object))
+  if scaled:
+    wit['scale'] = np.array([sc], dtype=object)
+
+  def rp(m):
+    xn = np.array([[sym.fp_value(xs[0], m)], [sym.fp_value(xs[1], m)]], dtype=np.float32)
+    ln = np.full([2, 1, 1, 1], sym.fp_value(loc, m), dtype=np.float32)
+    a = [tf.constant(xn), tf.constant(ln)] + ([tf.constant(np.full([2, 1, 1, 1], sym.fp_value(sc, m), dtype=np.float32))] if scaled else [None])
+    out = cc.cdf_fn(a[0], a[1], a[2], units=1, activation='relu6', reduction=red).numpy().astype(np.float64).reshape(-1)
+    bad = bool(np.any(~np.isfinite(out)) or np.any(out < 0) or np.any(out > 1) or (xn[0, 0] <= xn[1, 0] and out[0] > out[1]))
+    return dict(reproduced=bad, detail=dict(x=xn.reshape(-1).tolist(), location=float(ln[0, 0, 0, 0]), scale=(sym.fp_value(sc, m) if scaled else None), out=out.tolist()))
+  o0 = outs[0]
+  one = z3.FPVal(1.0, F)
+  zero = z3.FPVal(0.0, F)
+  case.solve('float32-output-in-unit-interval', z3.Or(z3.fpIsNaN(o0), z3.fpLT(o0, zero), z3.fpGT(o0, one)), assumptions=fin, witness=wit,
+             timeout=p.get('timeout', 120), sig=dict(query='float32-range'), inline_replay=rp)
+  # stretch: three float32 variables through a subtraction are beyond bit-blasting in z3 and cvc5 (no verdict in 300 s on the
+  # unchanged tree); the query can only ever report a witness, it is never counted as held
+  case.solve('float32-output-non-decreasing-in-input[stretch]', z3.fpGT(outs[0], outs[1]), assumptions=fin + [z3.fpLEQ(xs[0], xs[1])], witness=wit,
+             timeout=p.get('mono_timeout', 30), sig=dict(query='float32-monotone'), inline_replay=rp, required=False)
+  case.solve('twin:float32-output-varies', z3.Not(z3.fpEQ(outs[0], outs[1])), assumptions=fin, expect='sat', kind='twin', timeout=60)
+  return case
+
+
 def replay(r):
   import tensorflow as tf
   rp = r['replay']
@@ -460,6 +518,10 @@ def cases(tier, seed):
   add('case_cdf_fn', dim=4, nk=2, units=2, activation='relu6', reduction='mean', sparsity=2, scaling_shape='per_fn')
   add('case_cdf_fn', dim=2, nk=2, units=2, activation='sigmoid', reduction='none', scaling_shape='full', exp_mult=0.5)
   add('case_cdf_fn', dim=3, nk=2, units=1, activation='relu6', reduction='mean', scaling_shape=None)
+  # float32 semantics (rounding at large magnitudes) on the one-element configuration
+  add('case_cdf_fn_float32', scaled=False)
+  add('case_cdf_fn_float32', scaled=True, required=False, timeout=240)
+  add('case_cdf_fn_float32', scaled=False, reduction='none')
   add('case_cdf_fn', dim=2, nk=3, units=1, activation='relu6', reduction='mean', exp_mult=-1.0, required=False, timeout=45)
   if tier == 'thorough':
     add('case_pwl_fn', nk=5, units=2, mono='increasing', clamp_min=True, clamp_max=True, per_unit_input=True, required=False, timeout=600)
